@@ -195,7 +195,8 @@ def build(recipe):
         order = recipe.get("use", "fwd")
         use = names if order == "fwd" else list(reversed(names))
         body = [I("LOAD_FAST", Varname(n), line_number=1) for n in use] + [I("LOAD_FAST", Varname("extra_local"), line_number=1), I("LOAD_CONST", Constant(recipe.get("const", None)), line_number=1), I("RETURN_VALUE", line_number=1)]
-        return mk([body], type=Function(a, recipe.get("doc"), recipe.get("ftype"))), False
+        # before 3.8 positional-only parameters cannot be expressed: to_code must refuse, or else emit code whose signature is what the data says
+        return mk([body], type=Function(a, recipe.get("doc"), recipe.get("ftype"))), bool(po and not PY38)
     if k == "cells":
         nc, nf, pad = recipe["ncells"], recipe["nfrees"], recipe["pad"]
         b0 = [I("LOAD_DEREF", Cellvar("c%d" % i), line_number=1) for i in range(nc)]
@@ -308,6 +309,9 @@ def c03_recipes(tier, seed):
     for shape in itertools.product(rng if PY38 else (0,), rng, (0, 1), rng, (0, 1)):
         for use in ("fwd", "rev"):
             out.append({"kind": "args", "shape": list(shape), "use": use})
+    if not PY38:
+        for shape in ((1, 0, 0, 0, 0), (1, 1, 0, 0, 0), (2, 1, 1, 1, 1), (1, 0, 0, 2, 0)):
+            out.append({"kind": "args", "shape": list(shape), "use": "fwd"})
     for doc, const in (("the doc", None), (None, "a string first"), ("doc", "doc"), (None, None)):
         for ft in (None, "GENERATOR", "COROUTINE", "ASYNC_GENERATOR"):
             out.append({"kind": "args", "shape": [0, 1, 1, 1, 1], "doc": doc, "const": const, "ftype": ft})
